@@ -125,3 +125,245 @@ Lemma retry_never_invents_success c h e :
 Proof.
   intros H. destruct (retry_first_success_wins c h e H) as [n [_ [H2 [H3 _]]]]. eauto.
 Qed.
+
+(** * 2. The iterations of the loop: numbering, hooks, back-off values, waits *)
+From WM Require Import Handler.RetryArith.
+
+Lemma hooks_notes c k w l :
+  hooks (notes c k w ++ l) = (if has_hook c then [(Z.of_nat k, w)] else []) ++ hooks l.
+Proof. unfold notes. destruct (has_log c), (has_hook c); reflexivity. Qed.
+
+Lemma logs_notes c k w l :
+  logs (notes c k w ++ l) = (if has_log c then [(Z.of_nat k, w, max_retries c)] else []) ++ logs l.
+Proof. unfold notes. destruct (has_log c), (has_hook c); reflexivity. Qed.
+
+Definition failed_calls (h : nat -> outcome) (tr : list event) : nat :=
+  length (filter (fun j => negb (is_ok (h j))) (calls tr)).
+
+Definition note_of (it : witem) : Z * Z := (Z.of_nat (w_k it), w_wait it).
+
+(** iterations are numbered k, k+1, ...; the first f of them are the failed re-invocations and
+    exactly those are reported to the hook / the logger, with the wait NextBackOff returned *)
+Lemma loop_notes c h sl : forall rem k cur now last,
+  let r := loop c h sl rem k cur now last in
+  map w_k (r_waits r) = seq k (length (r_waits r))
+  /\ (length (r_waits r) <= rem)%nat
+  /\ exists f, f = failed_calls h (r_trace r) /\ (f <= length (r_waits r))%nat
+     /\ hooks (r_trace r) = (if has_hook c then map note_of (firstn f (r_waits r)) else [])
+     /\ logs (r_trace r) = (if has_log c then map (fun it => (note_of it, max_retries c)) (firstn f (r_waits r)) else []).
+Proof.
+  induction rem as [|rem IH]; intros k cur now last; cbn zeta.
+  - cbn. split; [reflexivity|]. split; [lia|]. exists O. cbn.
+    destruct (has_hook c), (has_log c); repeat split; reflexivity || lia.
+  - cbn [loop]. destruct (next_backoff c cur (s_elapsed (sl k)) (s_rnd (sl k))) as [wait cur'].
+    destruct (s_ctx (sl k)).
+    + cbn. split; [reflexivity|]. split; [lia|]. exists O. cbn.
+      destruct (has_hook c), (has_log c); repeat split; reflexivity || lia.
+    + destruct (is_ok (h k)) eqn:Hk.
+      * cbn. split; [reflexivity|]. split; [lia|]. exists O. unfold failed_calls. cbn. rewrite Hk. cbn.
+        destruct (has_hook c), (has_log c); repeat split; reflexivity || lia.
+      * specialize (IH (S k) cur' (now + s_gap (sl k) + s_wake (sl k) + s_dur (sl k)) (h k)).
+        cbn zeta in IH. destruct IH as [Hn [Hl [f [Hf [Hfl [Hh Hg]]]]]].
+        set (r := loop c h sl rem (S k) cur' (now + s_gap (sl k) + s_wake (sl k) + s_dur (sl k)) (h k)) in *.
+        cbn [r_trace r_waits r_out]. split.
+        { cbn [map length seq w_k]. rewrite Hn. reflexivity. }
+        split; [cbn [length]; lia|].
+        exists (S f). split.
+        { unfold failed_calls. cbn [calls flat_map app].
+          fold (calls (notes c k wait ++ r_trace r)). rewrite calls_notes.
+          cbn [filter]. rewrite Hk. cbn [negb length]. unfold failed_calls in Hf. rewrite Hf. reflexivity. }
+        split; [cbn [length]; lia|].
+        cbn [hooks logs flat_map app].
+        fold (hooks (notes c k wait ++ r_trace r)). fold (logs (notes c k wait ++ r_trace r)).
+        rewrite hooks_notes, logs_notes, Hh, Hg. cbn [firstn map note_of w_k w_wait].
+        destruct (has_hook c), (has_log c); split; reflexivity.
+Qed.
+
+(** without MaxElapsedTime the current interval of iteration k is the k-th value of the
+    generator *)
+Lemma loop_cur_schedule c h sl : max_elapsed c = 0 -> forall rem k cur now last,
+  (1 <= k)%nat -> cur = cur_at c k ->
+  Forall (fun it => w_cur it = cur_at c (w_k it)) (r_waits (loop c h sl rem k cur now last)).
+Proof.
+  intros ME. induction rem as [|rem IH]; intros k cur now last Hk Hc; [constructor|].
+  cbn [loop]. unfold next_backoff, stops. rewrite ME. cbn [Z.eqb negb andb].
+  destruct (s_ctx (sl k)); [constructor; [exact Hc|constructor]|].
+  destruct (is_ok (h k)); [constructor; [exact Hc|constructor]|].
+  cbn [r_waits]. constructor; [exact Hc|]. apply IH; [lia|].
+  rewrite Hc. destruct k; [lia|]. reflexivity.
+Qed.
+
+(** what [env_ok] guarantees about every iteration *)
+Definition iter_ok (c : cfg) (td : option Z) (treset : Z) (it : witem) : Prop :=
+  w_prev it <= w_tnb it <= w_twake it
+  /\ 0 <= w_cur it
+  /\ (w_ctx it = false -> w_wait it <= w_twake it - w_tnb it)
+  /\ (w_ctx it = false -> 0 < w_wait it -> forall t, td = Some t -> w_tnb it + w_wait it <= t)
+  /\ (w_ctx it = true -> exists t, td = Some t /\ t <= w_twake it /\ t <= w_tnb it + Z.max (w_wait it) 0)
+  /\ ( (w_wait it = STOP /\ 0 < max_elapsed c /\ max_elapsed c < w_tnb it - treset)
+       \/ (delay_lo (rfac c) (w_cur it) <= w_wait it <= delay_hi (rfac c) (w_cur it)
+           /\ 0 <= w_wait it
+           /\ ((rfac c == 0)%Q -> w_wait it = w_cur it)
+           /\ (max_elapsed c = 0 \/ w_tnb it - treset <= max_elapsed c)) ).
+
+Lemma Qin01_spec q : Qin01 q = true -> (0 <= q)%Q /\ (q < 1)%Q.
+Proof.
+  unfold Qin01. intros H. apply andb_true_iff in H as [A B]. apply Qle_bool_iff in A.
+  split; [exact A|]. apply negb_true_iff in B. apply Qnot_le_lt. intros C.
+  apply Qle_bool_iff in C. congruence.
+Qed.
+
+Lemma next_backoff_spec c cur elapsed rnd wait cur' :
+  cfg_ok c -> 0 <= cur -> (0 <= rnd)%Q -> (rnd < 1)%Q ->
+  next_backoff c cur elapsed rnd = (wait, cur') ->
+  0 <= cur' /\
+  ( (wait = STOP /\ cur' = cur /\ 0 < max_elapsed c /\ max_elapsed c < elapsed)
+    \/ (cur' = incr_interval c cur
+        /\ delay_lo (rfac c) cur <= wait <= delay_hi (rfac c) cur /\ 0 <= wait
+        /\ ((rfac c == 0)%Q -> wait = cur)
+        /\ (max_elapsed c = 0 \/ elapsed <= max_elapsed c)) ).
+Proof.
+  intros [Hi [Hmx [Hm [Hr0 [Hr1 Hme]]]]] Hc R0 R1. unfold next_backoff, stops.
+  destruct (max_elapsed c =? 0) eqn:E0; cbn [negb andb].
+  - apply Z.eqb_eq in E0. intros E. injection E as <- <-. split; [apply incr_nonneg; assumption|].
+    right. split; [reflexivity|]. split; [split; [apply rand_value_lo|apply rand_value_hi]; assumption|].
+    split; [apply rand_value_nonneg; assumption|]. split; [apply rand_value_rf0; assumption|]. left. exact E0.
+  - apply Z.eqb_neq in E0. destruct (Z.ltb_spec (max_elapsed c) elapsed).
+    + intros E. injection E as <- <-. split; [exact Hc|]. left. repeat split; try reflexivity; lia.
+    + intros E. injection E as <- <-. split; [apply incr_nonneg; assumption|].
+      right. split; [reflexivity|]. split; [split; [apply rand_value_lo|apply rand_value_hi]; assumption|].
+      split; [apply rand_value_nonneg; assumption|]. split; [apply rand_value_rf0; assumption|]. right. lia.
+Qed.
+
+Ltac zb :=
+  repeat match goal with
+  | H : (_ <=? _) = true |- _ => apply Z.leb_le in H
+  | H : (_ <? _) = true |- _ => apply Z.ltb_lt in H
+  | H : (_ =? _) = true |- _ => apply Z.eqb_eq in H
+  | H : (_ <=? _) = false |- _ => apply Z.leb_gt in H
+  | H : (_ <? _) = false |- _ => apply Z.ltb_ge in H
+  | H : (_ =? _) = false |- _ => apply Z.eqb_neq in H
+  | H : (_ && _) = true |- _ => apply andb_true_iff in H; destruct H
+  end.
+
+Lemma sel_ok_spec td treset tnb wait s : sel_ok td treset tnb wait s = true ->
+  0 <= s_gap s /\ 0 <= s_wake s /\ 0 <= s_dur s /\ (0 <= s_rnd s)%Q /\ (s_rnd s < 1)%Q
+  /\ s_elapsed s = tnb - treset
+  /\ (s_ctx s = true -> exists t, td = Some t /\ t <= tnb + s_wake s /\ t <= tnb + Z.max wait 0)
+  /\ (s_ctx s = false -> wait <= s_wake s /\ (0 < wait -> forall t, td = Some t -> tnb + wait <= t)).
+Proof.
+  unfold sel_ok. intros H. zb.
+  match goal with H : Qin01 _ = true |- _ => apply Qin01_spec in H; destruct H end.
+  split; [lia|]. split; [lia|]. split; [lia|]. split; [assumption|]. split; [assumption|]. split; [lia|].
+  split.
+  - intros Hc. rewrite Hc in *. destruct td as [t|]; [|discriminate]. zb.
+    exists t. repeat split; lia.
+  - intros Hc. rewrite Hc in *. zb. split; [lia|]. intros Hw t Ht.
+    match goal with H : (_ || _) = true |- _ => apply orb_true_iff in H; destruct H end; zb; [lia|].
+    rewrite Ht in *. zb. lia.
+Qed.
+
+Lemma loop_iters_ok c h sl td treset : cfg_ok c -> forall rem k cur now,
+  forall last, 0 <= cur ->
+  loop_ok c h sl td treset rem k cur now = true ->
+  Forall (iter_ok c td treset) (r_waits (loop c h sl rem k cur now last)).
+Proof.
+  intros Hcfg. induction rem as [|rem IH]; intros k cur now last Hc Hok; [constructor|].
+  cbn [loop loop_ok] in *.
+  destruct (next_backoff c cur (s_elapsed (sl k)) (s_rnd (sl k))) as [wait cur'] eqn:NB.
+  apply andb_true_iff in Hok as [Hs Hok].
+  apply sel_ok_spec in Hs as [G [W [D [R0 [R1 [El [Cx Tm]]]]]]].
+  destruct (next_backoff_spec c cur _ _ wait cur' Hcfg Hc R0 R1 NB) as [Hc' Hnb].
+  assert (Hit : iter_ok c td treset (WItem k cur wait now (now + s_gap (sl k)) (now + s_gap (sl k) + s_wake (sl k)) (s_ctx (sl k)))).
+  { unfold iter_ok. cbn [w_prev w_tnb w_twake w_cur w_ctx w_wait]. split; [lia|]. split; [exact Hc|].
+    split; [intros E; destruct (Tm E); lia|]. split; [intros E; destruct (Tm E) as [_ T]; exact T|].
+    split; [exact Cx|]. rewrite <- El.
+    destruct Hnb as [[? [? [? ?]]]|[? [? [? [? ?]]]]]; [left|right]; repeat split; try assumption; lia. }
+  destruct (s_ctx (sl k)); [constructor; [exact Hit|constructor]|].
+  destruct (is_ok (h k)); [constructor; [exact Hit|constructor]|].
+  cbn [r_waits]. constructor; [exact Hit|]. apply IH; assumption.
+Qed.
+
+
+(** giving up early: the loop returned through <-ctx.Done() *)
+Lemma loop_early_exit c h sl : forall rem k cur now last,
+  let r := loop c h sl rem k cur now last in
+  is_ok (r_out r) = false -> (length (calls (r_trace r)) < rem)%nat ->
+  exists its it, r_waits r = its ++ [it] /\ w_ctx it = true /\ w_twake it = r_tret r.
+Proof.
+  induction rem as [|rem IH]; intros k cur now last; cbn zeta; [cbn; lia|].
+  cbn [loop]. destruct (next_backoff c cur (s_elapsed (sl k)) (s_rnd (sl k))) as [wait cur'].
+  destruct (s_ctx (sl k)) eqn:Hc.
+  - intros _ _. eexists [], _. cbn. repeat split; reflexivity.
+  - destruct (is_ok (h k)) eqn:Hk; [cbn; congruence|].
+    cbn [r_out r_trace r_waits r_tret]. intros Ho Hl.
+    cbn [calls flat_map app] in Hl.
+    match type of Hl with context [flat_map ?f (notes c k wait ++ ?l)] =>
+      change (flat_map f (notes c k wait ++ l)) with (calls (notes c k wait ++ l)) in Hl end.
+    rewrite calls_notes in Hl. cbn [length] in Hl.
+    destruct (IH (S k) cur' (now + s_gap (sl k) + s_wake (sl k) + s_dur (sl k)) (h k) Ho ltac:(lia))
+      as [its [it [E [A B]]]].
+    exists (WItem k cur wait now (now + s_gap (sl k)) (now + s_gap (sl k) + s_wake (sl k)) false :: its), it.
+    rewrite E. repeat split; assumption.
+Qed.
+
+Lemma t_done_cases c e t : 0 <= e_ctx_gap e -> match e_lag e with Some l => 0 <= l | None => True end ->
+  t_done c e = Some t ->
+  (exists tc, e_cancel e = Some tc /\ tc <= t)
+  \/ (0 < max_elapsed c /\ t_end0 e + max_elapsed c <= t).
+Proof.
+  intros Hg Hl. unfold t_done.
+  destruct (e_cancel e) as [tc|], (0 <? max_elapsed c) eqn:E, (e_lag e) as [l|]; cbn; intros H;
+    try discriminate; zb; try (injection H as <-).
+  - destruct (Z.le_ge_cases tc (t_end0 e + e_ctx_gap e + max_elapsed c + l)).
+    + left. exists tc. split; [reflexivity|lia].
+    + right. split; lia.
+  - left. exists tc. split; [reflexivity|lia].
+  - left. exists tc. split; [reflexivity|lia].
+  - left. exists tc. split; [reflexivity|lia].
+  - right. split; lia.
+Qed.
+
+Lemma t_done_cancel c e tc : e_cancel e = Some tc -> exists t, t_done c e = Some t /\ t <= tc.
+Proof.
+  intros E. unfold t_done. rewrite E.
+  destruct (0 <? max_elapsed c), (e_lag e); cbn; eexists; split; try reflexivity; lia.
+Qed.
+
+Lemma env_ok_spec c h e : env_ok c h e = true ->
+  0 <= e_dur0 e /\ 0 <= e_ctx_gap e <= e_reset_gap e
+  /\ match e_lag e with Some l => 0 <= l | None => True end
+  /\ (is_ok (h O) = false ->
+      loop_ok c h (e_sel e) (t_done c e) (t_reset e) (iterations c) 1 (initial c) (t_reset e) = true).
+Proof.
+  unfold env_ok. intros H. zb. repeat split; try lia.
+  - destruct (e_lag e); [zb; lia|exact I].
+  - intros E. rewrite E in *. assumption.
+Qed.
+
+(** fewer retries than configured although every attempt failed: only through an ended
+    context — the message context was cancelled, or MaxElapsedTime had passed *)
+Lemma retry_early_exit_only_on_ctx c h e : cfg_ok c -> env_ok c h e = true ->
+  let r := retry c h e in
+  is_ok (r_out r) = false -> (attempts (r_trace r) < 1 + iterations c)%nat ->
+  exists its it t, r_waits r = its ++ [it] /\ w_ctx it = true /\ w_twake it = r_tret r
+    /\ t_done c e = Some t /\ t <= r_tret r
+    /\ ((exists tc, e_cancel e = Some tc /\ tc <= r_tret r)
+        \/ (0 < max_elapsed c /\ t_end0 e + max_elapsed c <= r_tret r)).
+Proof.
+  intros Hcfg Henv. apply env_ok_spec in Henv as [D0 [Gp [Lg Hl]]].
+  cbn zeta. unfold retry, attempts. destruct (is_ok (h O)) eqn:H0; [cbn; congruence|].
+  cbn [r_out r_trace r_waits r_tret]. intros Ho Ha.
+  cbn [calls flat_map app length] in Ha.
+  match type of Ha with context [flat_map ?f ?l] => change (flat_map f l) with (calls l) in Ha end.
+  destruct (loop_early_exit c h (e_sel e) (iterations c) 1 (initial c) (t_reset e) (h O) Ho ltac:(lia))
+    as [its [it [E [A B]]]].
+  pose proof (loop_iters_ok c h (e_sel e) (t_done c e) (t_reset e) Hcfg (iterations c) 1 (initial c) (t_reset e) (h O)
+                ltac:(destruct Hcfg; assumption) (Hl eq_refl)) as F.
+  rewrite E in F. apply Forall_app in F as [_ F]. inversion F as [|? ? Hit _]; subst.
+  destruct Hit as [_ [_ [_ [_ [Hx _]]]]]. destruct (Hx A) as [t [Ht [T1 T2]]].
+  exists its, it, t. rewrite <- B. repeat split; try assumption.
+  destruct (t_done_cases c e t ltac:(lia) Lg Ht) as [[tc [X Y]]|[X Y]].
+  - left. exists tc. split; [exact X|lia].
+  - right. split; lia.
+Qed.
